@@ -308,19 +308,29 @@ theorem reloc_end_at_64K :
     exact ⟨A, hA⟩
   · exact checkDiag_sound (by decide) []
 
-/-- (ii) crossing `$100` (known finding A11): below `$100` the address of a label is rendered with ONE byte,
-so `JMP START` is two bytes at `$F0` and three bytes at `$1F0`.  This is why the value-level theorems
-require every ORG at `$100` or above (`OrgBounds`, `OrgOk`). -/
-theorem reloc_crossing_100 :
-    (∃ A, assemble [] (lines [" ORG $00F0\n", "START JMP START\n"]) = .ok A ∧ A.image = some [0x7E, 0xF0]) ∧
-    (∃ B, assemble [] (lines [" ORG $01F0\n", "START JMP START\n"]) = .ok B ∧ B.image = some [0x7E, 0x01, 0xF0]) := by
+/-- (ii) crossing `$100` (known finding A11, REPAIRED in the code): below `$100` the address of a label used to
+be rendered with ONE byte, so `JMP START` was two bytes (`7E F0`) at `$F0` and three bytes at `$1F0`
+(`reloc_crossing_100` of the previous model).  With `fit_operand_width` the operand field of `JMP` has four hex
+digits wherever the program sits: `7E 00F0` / `7E 01F0`, the CODE moves as it should.  What still differs is the
+rendering of the address VALUE itself (one byte, DIRECT, below `$100`: the symbol table prints `$F0` against
+`$01F0`), and the value-level theorems speak of address values with the same hint and mode (`AddrShift`,
+`WideAddr`); this is why they still require every ORG at `$100` or above (`OrgBounds`, `OrgOk`). -/
+theorem reloc_crossing_100_fixed :
+    (∃ A, assemble [] (lines [" ORG $00F0\n", "START JMP START\n"]) = .ok A ∧ A.image = some [0x7E, 0x00, 0xF0] ∧
+      symtabLines A.symtab = some [("$F0   START").toList]) ∧
+    (∃ B, assemble [] (lines [" ORG $01F0\n", "START JMP START\n"]) = .ok B ∧ B.image = some [0x7E, 0x01, 0xF0] ∧
+      symtabLines B.symtab = some [("$01F0 START").toList]) := by
   constructor
   · obtain ⟨A, hA, c⟩ := checkProgram_sound (lines := lines [" ORG $00F0\n", "START JMP START\n"])
-      (check := fun A => A.image == some [0x7E, 0xF0]) (by decide) []
-    exact ⟨A, hA, by simpa using c⟩
+      (check := fun A => A.image == some [0x7E, 0x00, 0xF0] && symtabLines A.symtab == some [("$F0   START").toList])
+      (by decide) []
+    simp only [Bool.and_eq_true, beq_iff_eq] at c
+    exact ⟨A, hA, c.1, c.2⟩
   · obtain ⟨B, hB, c⟩ := checkProgram_sound (lines := lines [" ORG $01F0\n", "START JMP START\n"])
-      (check := fun A => A.image == some [0x7E, 0x01, 0xF0]) (by decide) []
-    exact ⟨B, hB, by simpa using c⟩
+      (check := fun A => A.image == some [0x7E, 0x01, 0xF0] && symtabLines A.symtab == some [("$01F0 START").toList])
+      (by decide) []
+    simp only [Bool.and_eq_true, beq_iff_eq] at c
+    exact ⟨B, hB, c.1, c.2⟩
 
 /-- (iii) the classes without a claim: `label * k` is multiplied AFTER the move (`#A*2`: `$2000` / `$2200`),
 and a PCR operand whose target is a label DIFFERENCE aims at a fixed number, so its displacement changes
@@ -342,5 +352,17 @@ theorem reloc_no_claim :
       (check := fun A => A.image == some [0x12, 0x8E, 0x10, 0xFE, 0x8E, 0x00, 0x01, 0x8E, 0x22, 0x00, 0x30, 0x8D, 0xEE, 0xF3])
       (by decide) []
     exact ⟨B, hB, by simpa using c⟩
+
+/-- (iv) why `Moved` asks for a 16-bit operand field (`FieldWide`): `A FCB A-$F0` is a `label - k` operand in a
+ONE-byte field.  At `$0100` the value `$10` fits (`fit_operand_width`), at `$0200` the value `$110` does not
+and the relocated program is rejected ("value 272 does not fit in 1 byte(s)"). -/
+theorem reloc_narrow_field :
+    (∃ A, assemble [] (lines [" ORG $0100\n", "A FCB A-$F0\n"]) = .ok A ∧ A.image = some [0x10]) ∧
+    assemble [] (lines [" ORG $0200\n", "A FCB A-$F0\n"]) = .diag := by
+  constructor
+  · obtain ⟨A, hA, c⟩ := checkProgram_sound (lines := lines [" ORG $0100\n", "A FCB A-$F0\n"])
+      (check := fun A => A.image == some [0x10]) (by decide) []
+    exact ⟨A, hA, by simpa using c⟩
+  · exact checkDiag_sound (by decide) []
 
 end CoCo.Props
